@@ -139,7 +139,14 @@ fn probe_all(ctx: &Ctx, rep: &mut Report, w: &mut W, rng: &mut Rng) -> bool {
                     (o.ok(), format!("{:?}", o.res))
                 }
                 _ => {
-                    let cand = gen_wellformed_set(rng, &mut w.ring, 2);
+                    // the proposed set is a fresh one, or the signing set itself under a new nonce
+                    let cand = if rng.chance(1, 3) {
+                        let mut c = set.clone();
+                        c.nonce = rng.bytes32();
+                        c
+                    } else {
+                        gen_wellformed_set(rng, &mut w.ring, 2)
+                    };
                     let plan = plan_honest(&w.ring, &m.domain, set, &cand.rotation_data_hash(), &all_slots(set));
                     let bypass = path == "rotate-bypass";
                     let g = &w.g;
